@@ -63,8 +63,20 @@ def gen_responses(r, B, p, M, limit, n):
     def add(cls, lines, body):
         out.append((cls, lines, body))
     for _ in range(n):
-        k = r.randrange(30)
-        if k == 0:    # every regex metacharacter in the boundary, quoted and not
+        k = r.randrange(32)
+        if k >= 30:   # printf conversions wherever the server's text could end up in a message: part headers, boundary, header lines
+            fmtb = r.choice([b"%s%s%s%s", b"%n%n", b"%x.%x.%x.%p", b"%999999d", b"%%", b"%1$s%2$n", b"100% sure", b"%ls%hhn"])
+            which = r.randrange(4)
+            if which == 0:
+                add("format-chars", [status, ct(good_b), b"\r\n"], b"\r\n--" + good_b + b"\r\nX-Note: " + fmtb + b"\r\n\r\n" + wf)
+            elif which == 1:
+                add("format-chars", [status, ct(good_b), b"\r\n"], multipart(rs, B, good_b, hdr_name=b"X-" + fmtb))
+            elif which == 2:
+                b_ = b"ab" + fmtb.replace(b" ", b"_") + b"cd"
+                add("format-chars", [status, ct(b_, True), b"\r\n"], multipart(rs, B, b_)[:-9] + fmtb)
+            else:
+                add("format-chars", [status, b"X-Info: " + fmtb + b"\r\n", ct(good_b), b"\r\n"], wf.replace(b"bytes ", b"bytes " + fmtb, 1))
+        elif k == 0:    # every regex metacharacter in the boundary, quoted and not
             ch = r.choice(META)
             b_ = b"ab" + ch.encode() * r.choice([1, 2, 5]) + b"cd"
             add("boundary-metachar", [status, ct(b_, r.random() < 0.5), b"\r\n"], multipart(rs, B, b_))
@@ -158,7 +170,7 @@ def worker(case):
     keep = False
     B = core.unb64(case["B"])
     T0 = core.unb64(case["T0"])
-    cid = core.h8([case["name"], case["cls"], case["hdr"], case["body"][:64], len(case["body"]), case["frag"], case["seq"], case.get("loglevel"), case.get("fd2"), case.get("chain"), case.get("neighbour")])
+    cid = core.h8([case["name"], case["cls"], case["hdr"], case["body"][:64], len(case["body"]), case["frag"], case["seq"], case.get("loglevel"), case.get("fd2"), case.get("chain"), case.get("neighbour"), case.get("norange")])
     stats = {"evaluations": 1}
     try:
         p = zckref.parse(B)
@@ -168,6 +180,12 @@ def worker(case):
         body = core.unb64(case["body"])
         L = (["closefd 2"] if case.get("fd2") else []) + ["fopen 1 t.zck rw target", "create 1", "init_read 1 1", "fv 1", "reset_failed 1", "flags 1", "dl_init 0 1",
              "range 2 1 %d" % case["limit"], "dl_set_range 0 2", "watch target %s" % allowed]
+        nr = case.get("norange")
+        if nr == "before":
+            # data arrives although no range was ever set on the download context
+            i_ = L.index("dl_set_range 0 2")
+            L[i_:i_] = ["hdrline 0 x:%s all" % h for h in case["hdr"]] + ["body 0 f:body.bin %s cont" % case["frag"], "clear_error 1"]
+            stats["deliveries_without_a_range"] = 1
         if case.get("chain"):
             L.insert(0, "chain 1")   # the application's own callbacks hung behind the library's
             stats["runs_with_application_callbacks_chained"] = 1
@@ -190,6 +208,10 @@ def worker(case):
                 L += ["fv 1", "reset_failed 1", "dl_reset 0", "dl_set_range 0 2"] + ["hdrline 0 x:%s all" % h for h in case["hdr"]] + ["body 0 f:body.bin %s cont" % case["frag"]]
             elif step == "again":
                 L += ["hdrline 0 x:%s all" % h for h in case["hdr"]] + ["body 0 f:body.bin %s cont" % case["frag"]]
+        if nr in ("null", "reset"):
+            # ... or after the application took the range away again / reset the context (as zckdl does after each request)
+            L += ["clear_error 1", "dl_set_range 0 null" if nr == "null" else "dl_reset 0"] + ["hdrline 0 x:%s all" % h for h in case["hdr"]] + ["body 0 f:body.bin %s cont" % case["frag"]]
+            stats["deliveries_without_a_range"] = 1
         L += ["watchstat", "watch - -", "flags 1", "dl_free 0", "range_free 2", "free 1"]
         # a third of the cases with the library's logging at DEBUG level (what zckdl -vv sets): message formatting sees the hostile bytes too
         rd = core.run_zh(case["zh"], cdir, "\n".join(L) + "\n", {"t.zck": T0, "t2.zck": T0, "body.bin": body or b""}, name="dl",
@@ -246,7 +268,7 @@ def worker(case):
                         break
                 if not viol and len(disk) != len(T0) and len(disk) > max([ext(c)[1] for c in missing] + [len(T0) - 1]) + 1:
                     viol = ("c17:file-grew-beyond-extents:%s" % case["cls"], "%d -> %d" % (len(T0), len(disk)))
-            if case["cls"] == "wellformed-control" and not viol and not case["seq"]:
+            if case["cls"] == "wellformed-control" and not viol and not case["seq"] and not case.get("norange"):
                 if not all(e.get("failed") == 0 for e in rd.ev(op="feed")):
                     viol = ("c17:wellformed-control-rejected", "control response rejected")
             stats["chunks_became_valid"] = sum(1 for c, f in zip(p.chunks, final) if f == 1 and c["number"] in case["M"])
@@ -269,7 +291,7 @@ class C17(core.Check):
             "balanced/unbalanced/empty, 16 KiB boundaries, missing CR, NULs, repeated boundary headers, parts without Content-Range, inverted/huge/non-numeric "
             "ranges, missing terminators, thousands of parts, payload length mismatches, unrequested ranges, byte-level mutations of well-formed responses) x "
             "fragmentations (whole, 1 byte, 7 bytes, random <= 16 KiB) x sequences (single, second response after zck_dl_reset, after zck_clear_error, repeated "
-            "without reset); a quarter with the application's own callbacks chained behind the library's, a fifth beside a second transfer (own context and file) that sees the same "
+            "without reset); a quarter with the application's own callbacks chained behind the library's, some with data delivered while no range is set (before dl_set_range, after dl_set_range(NULL), after zck_dl_reset), printf conversions in every server-supplied text, a fifth beside a second transfer (own context and file) that sees the same "
             "header lines and is freed in between; stage 2: libFuzzer target with ASan+UBSan and an in-target confinement/validity monitor. distinct = (class, header lines, body, "
             "fragmentation, sequence)")
     assumptions = ["confinement judged from the write(2) interposer's log and an image diff", "valid flags re-checked with hashlib"]
@@ -307,7 +329,7 @@ class C17(core.Check):
                     seq = r.choice([["retry"], ["retry", "reset"], ["clear", "retry"]])
                 out.append({"name": "f%d" % fi, "B": core.b64(B), "T0": core.b64(bytes(T0)), "M": M, "limit": limit, "cls": cls,
                             "hdr": [h.hex() for h in hdr], "body": core.b64(body), "frag": frag, "seq": seq, "zh": ctx["zh"],
-                            "fd2": 3 if r.random() < 0.15 else None, "chain": 1 if r.random() < 0.25 else 0, "neighbour": 1 if r.random() < 0.2 else 0,
+                            "fd2": 3 if r.random() < 0.15 else None, "chain": 1 if r.random() < 0.25 else 0, "neighbour": 1 if r.random() < 0.2 else 0, "norange": r.choice([None] * 8 + ["before", "null", "reset"]),
                             "loglevel": 0 if (cls in ("boundary-long", "boundary-metachar", "header-malformed") or r.random() < 0.25) and not frag.startswith("n:1") else None})
             # a part header that never seems to end: more than a megabyte before the blank line (a real range and payload follow), delivered in
             # transport-sized pieces; the caller clears the error, if any, and carries on / retries / resets
@@ -336,6 +358,10 @@ class C17(core.Check):
         p = zckref.parse(B)
         for k, (cls, hdr, body) in enumerate(gen_responses(r, B, p, {2, 4}, -1, 150)):
             blob = bytes([k & 0xff, len(hdr) & 0xff]) + b"".join(h if h.endswith(b"\n") else h + b"\n" for h in hdr) + body
+            if self.quick and len(blob) > 6000:
+                # (large seeds - tens of KB of part header - make every mutant of them slow under small fragmentations, Correction 3: the
+                # structured tier covers those sizes; the quick fuzz stage spends its run budget on small inputs)
+                continue
             open(os.path.join(corpus, "s%d" % k), "wb").write(blob[:60000])
         procs = []
         for j in range(jobs):
